@@ -93,7 +93,22 @@ def IS_RESERVED(name):
     return _NATIVE.match(name) is not None
 
 
-def VALID_NAME(name):
+def VALID_NAME_RULE(name):
+    """The rule itself: an identifier that is not reserved."""
     if smt():
         return z3.And(IS_IDENTIFIER(name), z3.Not(IS_RESERVED(name)))
     return IS_IDENTIFIER(name) and not IS_RESERVED(name)
+
+
+def VALID_NAME(name):
+    """Ghost predicate `valid-name(s)`, DEFINED as VALID_NAME_RULE(s).  The defining equation is used where the rule itself
+    is checked (the body of check_name: `definitions` of its contract); every other contract talks about names only through
+    this predicate, so that its obligations contain no regular expressions (z3 otherwise spends its time in the string
+    solver on propositionally trivial queries)."""
+    if smt():
+        from pyvc import speclib
+        from pyvc.values import Str
+
+        uf = speclib.CTX.engine.uf("ghost!valid-name", z3.StringSort(), z3.BoolSort())
+        return uf(Str.unwrap(name))
+    return VALID_NAME_RULE(name)
